@@ -193,6 +193,9 @@ func c12Prep(cfg c12Cfg) error {
 		}
 		return os.Rename(t, d)
 	}
+	if cfg.K == 0 {
+		return nil // no index yet (a Builder without documents would still write an empty shard)
+	}
 	if err := c12BuildOld(cfg.Dir, cfg, c12RepoName, c12RepoID, "o", "c"); err != nil {
 		return err
 	}
@@ -236,7 +239,8 @@ func c12Build(cfg c12Cfg) (error, error) {
 		}
 		return b.Finish(), nil
 	case "delta":
-		o := c12Opts(cfg.Dir, c12RepoName, c12RepoID, "v2", "0", 2*cfg.D)
+		// one delta shard holding the re-indexed (c,i) documents of every old shard
+		o := c12Opts(cfg.Dir, c12RepoName, c12RepoID, "v2", "0", cfg.K*cfg.D)
 		o.IsDelta = true
 		b, err := index.NewBuilder(o)
 		if err != nil {
